@@ -118,6 +118,10 @@ IA = "IA"
 
 def _ops():
     ops = [("Q", {})]
+    # every other query is an operation too: a read must not change any later answer
+    for q in ("Q_stoichiometries", "Q_stoichiometries_state", "Q_right_hand_side", "Q_fluxes", "Q_call", "Q_initial_conditions",
+              "Q_parameter_values", "Q_derived_names", "Q_args_time_course", "Q_stoichiometries_of_variable"):
+        ops.append((q, {}))
     # adds: fresh name, same kind in use, other kind in use, surrogate output, time
     for nm in ("n1", "k", "x", "sa", "time", "dp"):
         ops.append(("add_parameter", {"name": nm, "value": 1.25}))
@@ -224,9 +228,34 @@ def apply_op(m, op):
     from mxlpy.surrogates import qss
 
     name, a = op
-    if name == "Q":
+    if name.startswith("Q"):
         try:
-            m.get_args()
+            vn = m.get_variable_names()
+            st = {v: 0.7 + 0.4 * i for i, v in enumerate(vn)}
+            if name == "Q":
+                m.get_args()
+            elif name == "Q_stoichiometries":
+                m.get_stoichiometries()
+            elif name == "Q_stoichiometries_state":
+                m.get_stoichiometries(st, 2.0)
+            elif name == "Q_right_hand_side":
+                m.get_right_hand_side(st, 1.0)
+            elif name == "Q_fluxes":
+                m.get_fluxes(st, 1.0)
+            elif name == "Q_call":
+                m(1.0, [st[v] for v in vn])
+            elif name == "Q_initial_conditions":
+                m.get_initial_conditions()
+            elif name == "Q_parameter_values":
+                m.get_parameter_values()
+            elif name == "Q_derived_names":
+                m.get_derived_parameter_names()
+                m.get_derived_variable_names()
+            elif name == "Q_args_time_course":
+                m.get_args_time_course(pd.DataFrame({v: [st[v], 2 * st[v]] for v in vn}, index=[0.5, 1.5]), include_readouts=True)
+            elif name == "Q_stoichiometries_of_variable":
+                for v in vn:
+                    m.get_stoichiometries_of_variable(v, st, 1.0)
         except Exception:  # noqa: BLE001 - a query that fails is still a query
             pass
         return
@@ -394,7 +423,7 @@ def reference_acceptance(m, op):
     """'reject' | 'accept' | None (statement does not say) for op on the model *before* it is applied."""
     name, a = op
     ids, _ = expected_ids(m)
-    if name == "Q":
+    if name.startswith("Q"):
         return "accept"
     if name.startswith("add_") and not name.endswith("s") or name in ("add_data",):
         new = [a["name"]] + (list(a["outputs"]) if name == "add_surrogate" else [])
@@ -537,7 +566,7 @@ def check(case):
     init, hist, opi = case["init"], case["hist"], case["op"]
     op = OPS[opi]
     m = _init_state(init, hist, case.get("key"))
-    nontrivial = op[0] != "Q" and (bool(hist) or init % 2 == 1)
+    nontrivial = (not op[0].startswith("Q") or bool(hist)) and (bool(hist) or init % 2 == 1)
     before = content(m)
     expect = reference_acceptance(m, op)
     raised = None
